@@ -51,6 +51,27 @@ def run(ctx):
                 ctx.harness_broken("history %s: the server stopped answering (%s)" % (h["id"], h["broken"]), str(h["steps"][-1:])[:1500])
     good = [h for h in hists if h["steps"]]
     nm, nf = vsrv.evaluate(ctx, ID + "_cases", good, WHICH)
+    # "only that request is affected": a faulted history whose un-faulted twin agrees with the model everywhere, and which itself
+    # agrees with the model up to and including the faulted request, but answers a LATER request differently from the model
+    # (which is proved to leave fid table and path tree as if the failed request had not run) is a concrete failing history.
+    byid = {h["id"]: h for h in good}
+    bad_ids = {b.get("history") for b in ctx.broken if b.get("kind") == "correspondence"}
+    for b in list(ctx.broken):
+        if b.get("kind") != "correspondence" or b.get("history") not in byid:
+            continue
+        h = byid[b["history"]]
+        f = h.get("fault")
+        k = b.get("step")
+        if not f or f.get("panic") or k is None or k <= f["step"]:
+            continue
+        parts = h["id"].split("-")
+        twin = "base-%s-%s" % (parts[1], parts[2]) if parts[0] == "fault" and len(parts) > 3 else None
+        if twin is not None and twin in bad_ids:
+            continue   # the model is off on this history even without the fault: a correspondence problem, not this clause
+        ctx.violation("C15:later:%s" % h["steps"][k]["req"]["t"],
+                      "after a backend error at step %d call %d (%s), the later request at step %d (%s) is answered differently from a server whose "
+                      "fid table and path tree are as if the failed request had not run" % (f["step"], f["call"], h["steps"][f["step"]]["req"]["t"], k, h["steps"][k]["req"]),
+                      {"history": h["id"], "fault": f, "failing_step": k, "steps": h["steps"][:k + 1]})
     st, distinct = vsrv.stats(good)
     sites = {}
     for h in good:
